@@ -103,11 +103,15 @@ static void setConstr(int i, int v1, int v2, int c) { new (conArr + i * sizeof(C
 // ---- O2: one constraint => makeArcConsistent performs revisions of that single arc; it must be sound
 //      (no value that takes part in a solution of the arc is removed) and exact when it answers "no".
 void h_arc(void) {
-    bool same = nondet_bool();
+    bool same = verif_param() != 0;            // case split: 0 = two distinct variables, 1 = self constraint v <= v + c
     int nVars = same ? 1 : 2;
     CspSolver& cs = mkSolver(nVars, 1);
     U64 D0 = nondet_u64(), D1 = nondet_u64();
     int c = nondet_int(); ASSUME(c >= -70 && c <= 70);
+    if (same) {   // a self constraint with c < 0 shrinks the domain once per revision: bound the domain to a window of 6 values
+        int base = nondet_int(); ASSUME(base >= 0 && base <= 58);
+        D0 &= 0x3fULL << base;
+    }
     domArr[0].data[0] = D0; domArr[1].data[0] = D1;
     bool flip = nondet_bool();
     int v1 = same ? 0 : (flip ? 1 : 0), v2 = same ? 0 : (flip ? 0 : 1);
